@@ -226,25 +226,8 @@ theorem chunkstream_never_stuck (H : Bytes → Bytes) (jobs : List (Nat × Bytes
     ∃ e s', CStream.step H s e = some s' :=
   CStream.no_deadlock H jobs n hn s h hr
 
-/-- **regenerated obligation**: index.go's `ChunkStream` still records, stores, numbers and assembles
-    what the machine says (names are normalised: `j` = the worker's loop variable, `$1 $2 $3` = the results
-    of the chunker's `Next()`, `$n` = the counter): the worker calls `recordResult(j.num, IndexChunk{Start:
-    j.start, Size: uint64(len(j.b)), ID: NewChunk(j.b).ID()})` exactly once per job and nothing skips an
-    iteration; `recordResult` assigns `results[key] = row`; the worker stores `NewChunk(j.b)` and
-    returns that call's error; the feeder sends `chunkJob{num: $n, start: $1, b: $2}`, the counter
-    starts at 0 and is incremented after the send; the index is `chunks[i] = results[i]` for
-    `i < len(results)` -/
-theorem gen_chunkstream_shape :
-    Gen.site_chunkstream_found = true ∧
-    Gen.chunkStreamRecordKey = "j.num" ∧
-    Gen.chunkStreamRecordRow = "IndexChunk{ID:NewChunk(j.b).ID(),Size:uint64(len(j.b)),Start:j.start}" ∧
-    Gen.chunkStreamRecordOncePerJob = true ∧
-    Gen.chunkStreamResultsAssign = "results[key]=row" ∧
-    Gen.chunkStreamStoreArg = "NewChunk(j.b)" ∧ Gen.chunkStreamStoreErrReturned = true ∧
-    Gen.chunkStreamNext = "3 results:=chunker.Next()" ∧ Gen.chunkStreamJob = "chunkJob{b:$2,num:$n,start:$1}" ∧
-    Gen.chunkStreamNumbering = true ∧
-    Gen.chunkStreamAssemble = ["make([]IndexChunk,len(results))", "every k<len(results): chunks[k]=results[k]", "chunks"] := by
-  decide
+/-! the regenerated obligation `gen_chunkstream_shape` lives in its own module
+    (`Properties/C02/GenChunkStream.lean`), so that a rewrite of `ChunkStream` leaves the theorems above checked -/
 
 /-! ### non-vacuity -/
 
